@@ -435,6 +435,8 @@ pub fn constraint_instances() -> Vec<ConDecl> {
         c("bool_lin_eq", vec![ca(&[1, -1, 1]), ia(&["p", "q", "r"]), v("z")]),
         c("bool_lin_le", vec![ca(&[1, 2]), ia(&["p", "q"]), Arg::I(1)]),
         c("bool_lin_le", vec![ca(&[-1, 2, 1]), ia(&["p", "q", "r"]), Arg::I(0)]),
+        c("bool_lin_le", vec![ca(&[0, 2, -1]), ia(&["p", "q", "r"]), Arg::I(0)]),
+        c("bool_lin_eq", vec![ca(&[2, 0, 1]), ia(&["p", "q", "r"]), v("x")]),
         c("bool_and", vec![v("p"), v("q"), v("r")]),
         c("bool_and", vec![v("p"), v("p"), v("q")]),
         c("bool_clause", vec![ia(&["p"]), ia(&["q"])]),
@@ -460,6 +462,9 @@ pub fn constraint_instances() -> Vec<ConDecl> {
             (vec![2, -1], vec!["x", "z"], 0),
             (vec![1, -1, 2], vec!["x", "y", "z"], 1),
             (vec![-1], vec!["y"], 1),
+            // a zero coefficient
+            (vec![0, 1, 1], vec!["x", "y", "z"], 1),
+            (vec![0, 0], vec!["x", "z"], 0),
         ] {
             out.push(c(name, vec![ca(&coefs), ia(&vars), Arg::I(rhs)]));
             out.push(c(reif, vec![ca(&coefs), ia(&vars), Arg::I(rhs), v("p")]));
@@ -592,7 +597,7 @@ pub fn cases(tier: Tier) -> Vec<Case> {
         insts.clone()
     };
     for c in &core {
-        for variant in 0..23 {
+        for variant in 0..25 {
             let mut f = model(vec![c.clone(), ConDecl { name: "int_le", args: vec![v("x"), v("x")] }], Goal::Satisfy, String::new());
             // make sure all base variables exist for the variants
             f.vars = base_vars();
@@ -744,6 +749,21 @@ pub fn cases(tier: Tier) -> Vec<Case> {
                     f.vars.push(VarDecl { name: "k".into(), dom: Dom::Range(0, 1), alias: Some("h".into()), fixed: None, output: true });
                     f.vars.push(VarDecl { name: "l".into(), dom: Dom::Range(0, 1), alias: None, fixed: None, output: true });
                     f.cons.push(ConDecl { name: "int_le", args: vec![v("k"), v("l")] });
+                }
+                23 => {
+                    // set domains written unsorted / with a repeated value whose first element, last
+                    // element and length look like those of an interval
+                    f.vars.push(VarDecl { name: "w".into(), dom: Dom::Set(vec![2, 5, 4]), alias: None, fixed: None, output: true });
+                    f.vars.push(VarDecl { name: "u".into(), dom: Dom::Set(vec![1, 1, 3]), alias: None, fixed: None, output: true });
+                    f.cons.push(ConDecl { name: "int_le", args: vec![v("x"), v("w")] });
+                    f.cons.push(ConDecl { name: "int_ne", args: vec![v("u"), v("z")] });
+                }
+                24 => {
+                    // the same kind of set domain with the optimum at the value an interval would lose
+                    f.vars.push(VarDecl { name: "w".into(), dom: Dom::Set(vec![3, 6, 5]), alias: None, fixed: None, output: true });
+                    f.vars.push(VarDecl { name: "u".into(), dom: Dom::Set(vec![0, -2, -1]), alias: None, fixed: None, output: true });
+                    f.cons.push(ConDecl { name: "int_lin_le", args: vec![Arg::Arr(vec![Arg::I(1), Arg::I(-1)]), Arg::Arr(vec![v("x"), v("w")]), Arg::I(-3)] });
+                    f.cons.push(ConDecl { name: "int_le", args: vec![v("u"), v("z")] });
                 }
                 _ => {
                     // several reified equalities of one variable combined in a clause
@@ -936,7 +956,7 @@ impl Property for C13 {
     }
     fn rule(&self, tier: Tier) -> String {
         format!(
-            "Grammar-bounded enumeration of FlatZinc texts: {} instantiations covering every constraint name handled by the front end (arguments from 3 integer variables with range/set domains, 3 Boolean variables, constants, inline and named arrays, set literals); families: single constraint x goal {{satisfy, minimize, maximize}} x flags {{none, -a, -f, -a -f}} (+ --optimisation-strategy linear-unsat-sat), pairs of constraints (quick: stride; thorough: every pair x 3 goals x {{none, -a}}), declaration variants (in the thorough tier on every instantiation; one and two alias pairs, alias classes of three and four members built as fans / chains / interleaved and followed by further variables, alias with a smaller domain, = constant, Boolean alias/fixed, variable arrays with output_array, parameter arrays, scalar / set / Boolean-array parameters used in constraint arguments, set-domain aliases in both directions, Boolean fixed to false with an alias chain, several reified equalities of one variable joined by a clause, non-output variables), 8 unsatisfiable models (at compile time, at the root, after search) x goals x flags, 4 conflict-rich models x 12 command-line configurations (resolver, minimisation, restart policies, nogood database limits, all six cumulative propagation methods with explanation types / holes / sequence generation / incremental backtracking) x goals, search annotations (int_search/bool_search/seq_search x {} variable x {} value selection names); {} files in total, each run through the real binary. Oracle: an independent evaluator of the builtins brute-forces the declared domains: every printed block is the projection of a solution; satisfy prints one block or the unsatisfiable marker exactly when there is none; with -a the printed SET equals the projection of all solutions and ========== follows; for minimize/maximize the last block before ========== is optimal; non-zero exit, panic or unparsable line is a violation. A case = one (file, flags); non-trivial = the model has some but not all assignments as solutions.",
+            "Grammar-bounded enumeration of FlatZinc texts: {} instantiations covering every constraint name handled by the front end (arguments from 3 integer variables with range/set domains, 3 Boolean variables, constants, inline and named arrays, set literals); families: single constraint x goal {{satisfy, minimize, maximize}} x flags {{none, -a, -f, -a -f}} (+ --optimisation-strategy linear-unsat-sat), pairs of constraints (quick: stride; thorough: every pair x 3 goals x {{none, -a}}), declaration variants (in the thorough tier on every instantiation; one and two alias pairs, alias classes of three and four members built as fans / chains / interleaved and followed by further variables, set domains written unsorted / with repeated values incl. ones whose first, last and length look like an interval, alias with a smaller domain, = constant, Boolean alias/fixed, variable arrays with output_array, parameter arrays, scalar / set / Boolean-array parameters used in constraint arguments, set-domain aliases in both directions, Boolean fixed to false with an alias chain, several reified equalities of one variable joined by a clause, non-output variables), 8 unsatisfiable models (at compile time, at the root, after search) x goals x flags, 4 conflict-rich models x 12 command-line configurations (resolver, minimisation, restart policies, nogood database limits, all six cumulative propagation methods with explanation types / holes / sequence generation / incremental backtracking) x goals, search annotations (int_search/bool_search/seq_search x {} variable x {} value selection names); {} files in total, each run through the real binary. Oracle: an independent evaluator of the builtins brute-forces the declared domains: every printed block is the projection of a solution; satisfy prints one block or the unsatisfiable marker exactly when there is none; with -a the printed SET equals the projection of all solutions and ========== follows; for minimize/maximize the last block before ========== is optimal; non-zero exit, panic or unparsable line is a violation. A case = one (file, flags); non-trivial = the model has some but not all assignments as solutions.",
             constraint_instances().len(),
             VAR_SEL.len(),
             VAL_SEL.len(),
